@@ -8,8 +8,8 @@ Value facts (emitted as Coq definitions, used by Model/C02.v):
   vroot_idx_off, vroot_idx_absent     `len(vroot_tuple) - 1` and `-1`
   path_segment_safe                   PATH_SEGMENT_SAFE
   lru sizes, VH_ROOT_KEY
-Shape pins: pins.json for the helper functions; for ResourceTreeTraverser.__call__ the pin is
-taken over the function with the translated holes blanked out (the holes are value facts).
+Shape pins: pins.json for the helper functions.  ResourceTreeTraverser.__call__ and find_root are not pinned:
+they are translated as a whole (translate.py: gen_call_preamble ; gen_call_tail, gen_find_root_c02).
 """
 import ast
 import copy
@@ -246,7 +246,9 @@ def extract(src_root):
         a = assigns('vroot_idx')
         if len(a) != 2:
             raise Unknown('vroot_idx assignments')
-        a.sort(key=lambda n: n.lineno)
+        # one of the two is `len(vroot_tuple) +- k` (header present), the other an int literal (header absent),
+        # in either textual order
+        a.sort(key=lambda n: 0 if isinstance(n.value, ast.BinOp) else 1)
         t0 = ast.unparse(a[0].value)
         e0 = a[0].value
         if not (isinstance(e0, ast.BinOp) and isinstance(e0.op, (ast.Sub, ast.Add)) and ast.unparse(e0.left) == 'len(vroot_tuple)'
@@ -254,7 +256,7 @@ def extract(src_root):
             raise Unknown('vroot_idx = %s' % t0)
         off = e0.right.value if isinstance(e0.op, ast.Add) else -e0.right.value
         absent = ast.literal_eval(a[1].value)
-        if not isinstance(absent, int):
+        if not isinstance(absent, int) or isinstance(absent, bool):
             raise Unknown('vroot_idx = %s' % ast.unparse(a[1].value))
         a[0].value = HOLE
         a[1].value = HOLE
@@ -468,12 +470,9 @@ def facts(src_root):
     with open(os.path.join(HERE, 'skeleton.json')) as f:
         wants = json.load(f)
     skeleton = skeleton or {}
-    want = wants.get('pyramid/traversal.py', {}).get('ResourceTreeTraverser.__call__')
-    summary['pyramid/traversal.py:ResourceTreeTraverser.__call__[preamble]'] = skeleton.get('call')
-    if skeleton.get('call') is not None and skeleton['call'] != want:
-        problems.append('shape pin pyramid/traversal.py:ResourceTreeTraverser.__call__ (the statements before '
-                        '`root = self.root`, vroot_idx expressions blanked) changed (%s -> %s): the hand-written '
-                        'path_and_subpath / vroot_part follow the previous text' % (want, skeleton['call']))
+    # the preamble of __call__ is no longer pinned: it is translated (translate.py, gen_call_preamble); its hash is
+    # only reported
+    summary['pyramid/traversal.py:ResourceTreeTraverser.__call__[preamble, informational]'] = skeleton.get('call')
     wantr = wants.get('pyramid/router.py', {}).get('Router.handle_request')
     summary['pyramid/router.py:Router.handle_request[traversal part]'] = skeleton.get('router')
     if skeleton.get('router') is not None and skeleton['router'] != wantr:
